@@ -197,6 +197,12 @@ impl<TInner> Negotiated<TInner> {
     }
 }
 
+/// The error returned by I/O operations on a `Negotiated` whose (lazy) protocol
+/// negotiation has already failed, i.e. after a read or flush reported the failure.
+fn invalid_state() -> io::Error {
+    io::Error::other("Negotiated: protocol negotiation failed previously")
+}
+
 /// The states of a `Negotiated` I/O stream.
 #[pin_project(project = StateProj)]
 #[derive(Debug)]
@@ -223,7 +229,8 @@ enum State<R> {
     },
 
     /// Temporary state while moving the `io` resource from
-    /// `Expecting` to `Completed`.
+    /// `Expecting` to `Completed`. Also the final state after the
+    /// negotiation failed: all further I/O operations return an error.
     Invalid,
 }
 
@@ -295,7 +302,7 @@ where
         match self.project().state.project() {
             StateProj::Completed { io } => io.poll_write(cx, buf),
             StateProj::Expecting { io, .. } => io.poll_write(cx, buf),
-            StateProj::Invalid => panic!("Negotiated: Invalid state"),
+            StateProj::Invalid => Poll::Ready(Err(invalid_state())),
         }
     }
 
@@ -303,7 +310,7 @@ where
         match self.project().state.project() {
             StateProj::Completed { io } => io.poll_flush(cx),
             StateProj::Expecting { io, .. } => io.poll_flush(cx),
-            StateProj::Invalid => panic!("Negotiated: Invalid state"),
+            StateProj::Invalid => Poll::Ready(Err(invalid_state())),
         }
     }
 
@@ -327,7 +334,7 @@ where
                 }
                 close_poll
             }
-            StateProj::Invalid => panic!("Negotiated: Invalid state"),
+            StateProj::Invalid => Poll::Ready(Err(invalid_state())),
         }
     }
 
@@ -339,7 +346,7 @@ where
         match self.project().state.project() {
             StateProj::Completed { io } => io.poll_write_vectored(cx, bufs),
             StateProj::Expecting { io, .. } => io.poll_write_vectored(cx, bufs),
-            StateProj::Invalid => panic!("Negotiated: Invalid state"),
+            StateProj::Invalid => Poll::Ready(Err(invalid_state())),
         }
     }
 }
